@@ -1,7 +1,7 @@
 """Property -> rule set, with the clause split that the manifest and the evidence repeat."""
 from __future__ import annotations
 
-from .rules import tables, config, luts, state, ownership, contracts
+from .rules import tables, config, luts, state, ownership, contracts, stream
 
 RULES = {
     'H1': tables.rule_H1,
@@ -18,6 +18,7 @@ RULES = {
     'L': contracts.rule_L, 'K': contracts.rule_K, 'E1': contracts.rule_E1, 'E2': contracts.rule_E2, 'E3': contracts.rule_E3,
     'E6': contracts.rule_E6, 'E7': contracts.rule_E7, 'D2': contracts.rule_D2, 'E9': contracts.rule_E9, 'E4': contracts.rule_E4,
     'E10': contracts.rule_E10,
+    'C': stream.rule_C, 'POSW': stream.rule_POSW, 'B1': stream.rule_B1, 'POST': stream.rule_POST, 'RB': stream.rule_RB,
     'H5a': luts.rule_H5a, 'H5b': luts.rule_H5b, 'H5c': luts.rule_H5c,
 }
 
@@ -118,8 +119,102 @@ _p('C04', ['A1', 'A2', 'A3', 'A4', 'A5', 'A6', 'A7', 'A8', 'A9', 'A10', 'F2'],
                "the resolved call graph, per concrete class).",
    floors={'A1': 60, 'A4': 25, 'A5': 100})
 
+_p('C01', ['K', 'E6', 'J2', 'A10'],
+   decided=["the result of +, *, slicing and their reflected forms has exactly the class of the left (bitstring) operand, "
+            "for each of the four classes",
+            "a negative repeat count raises ValueError (guard agreement among __mul__/__imul__; __rmul__ delegates)",
+            "the content of len/iter/bool/indexing/slicing/+/* depends only on the operands' bits: these operations "
+            "reach no read of the stream position or file name, and temporaries they mutate own fresh stores"],
+   declined=["agreement of every index/slice/step/concatenation/repetition result with the string model, and IndexError "
+             "for out-of-range indices: run-time index arithmetic inside bitarray and offset_slice_indices_lsb0"],
+   explanation="Class-provenance typing of every return of the operator/slicing methods per concrete class; sibling guard "
+               "comparison; call-graph reachability to field reads.")
+
+_p('C06', ['C', 'POSW', 'B1', 'POST', 'RB', 'E7', 'D2', 'J1', 'J2'],
+   decided=["0 <= pos <= len in its structural part: _pos is definitely assigned on every escaping stream object; every "
+            "_pos write is 0, the length, a validated/restored/found position, pos+len after a validated pos, or a "
+            "bounded/checked increment; every effect that can change a BitStream's length is covered by stream-level "
+            "code that updates _pos",
+            "a failing read leaves pos unchanged (no raise after an un-restored _pos write in read); peek/peeklist "
+            "save and restore; readlist moves pos only with the successful result",
+            "a read needing more bits than remain raises ReadError (both fixed-length reader closures; exp-Golomb "
+            "translation chain)",
+            "documented position after append/+=/prepend/clear/deletion/assignment/replace/insert/overwrite/find and "
+            "for new stream objects (kind of the assigned value per method)",
+            "pos never affects ==, hash or any non-stream result (content operations reach no _pos read)"],
+   declined=["that the value returned by a read is the interpretation of exactly the consumed bits; pos arithmetic for "
+             "oversized lengths inside _read_dtype_list (run-time)"],
+   explanation="Typestate and path rules over bitstream.py: classification of all _pos writes by the form of the assigned "
+               "value and its dominating guards, rollback path walk of read(), effect summaries per public BitStream "
+               "name, post-condition table keyed by method.",
+   floors={'POSW': 25, 'B1': 18})
+
+_p('C07', ['E1', 'E2', 'E3'],
+   decided=["an empty pattern raises ValueError in find, rfind, findall, split, replace (and `in`/readto by delegation)",
+            "an invalid [start, end) raises: every public function with start/end validates them through _validate_slice "
+            "(or forwards them unchanged to one that does) before any other use",
+            "bytealigned=None defaults from options.bytealigned before reaching any store-level search"],
+   declined=["agreement of the fast byte path, general path and chunked reverse path with the brute-force definition; "
+             "overlap and ordering of results (run-time search arithmetic)"],
+   explanation="Sibling guard agreement over the search entry points; forward-or-validate dataflow of start/end; taint of "
+               "the raw bytealigned parameter to the store-level search sinks.")
+
+_p('C08', ['J1', 'J2', 'L', 'A7', 'A8'],
+   decided=["the complete observable state is the bit content: per-object fields are closed (__slots__) and _filename, "
+            "immutable, modified_length, _pos are read only by the code whose role needs them; content operations "
+            "reach no read of _pos/_filename",
+            "a file-backed bitstring whose length stops short of the file behaves as the in-memory bitstring of those "
+            "bits: the logical length never outlives construction (or every raw reader consults it)",
+            "every construction route ends in a store holding copies of the selected window (ingress copies; "
+            "frombuffer only on a read-only mmap)"],
+   declined=["that every public operation returns equal results on equal content (needs functional correctness of each "
+             "operation; run-time)"],
+   explanation="Field read-confinement census, representation-invariant check of BitStore.modified_length (abstract "
+               "state at the exits of its writers), ingress-copy rules.")
+
+_p('C10', ['D2', 'E9', 'J1'],
+   decided=["negative values for the unsigned codes are rejected (guard dominates the encoder)",
+            "a truncated codeword raises ReadError (InterpretError through the property) and a codeword followed by "
+            "extra bits is not accepted as a single value: exception translation chain decoder -> getter -> reader, "
+            "index reads inside try/except IndexError, slice reads behind a remaining-bits test, length check",
+            "position unchanged on failure: decoders take and return pos as a value (no _pos access outside bitstream.py)",
+            "the codes refuse lsb0 mode consistently (setters and base decoders)"],
+   declined=["exact codewords for every integer, decode(encode(i)) == i, prefix-freeness (arithmetic on unbounded integers)"],
+   explanation="Exception-translation and guard-dominance checks over the four setters, four getters, the decoders and the "
+               "reader closures of DtypeDefinition.")
+
+_p('C13', ['HASH', 'J1', 'J2', 'D3', 'L'],
+   decided=["BitArray and BitStream are unhashable, Bits and ConstBitStream hash (MRO resolution incl. Python's implicit "
+            "__hash__ = None); ordering operators return NotImplemented",
+            "== / != / hash have one implementation each for all classes and reach no read of _pos or _filename, so they "
+            "are independent of stream position and construction route; logical length honoured",
+            "comparison with a non-promotable type is False, not an error; != is the negation of =="],
+   declined=["symmetry/transitivity as value-level laws, the 2000-bit sampling threshold arithmetic, equality with "
+             "promotable operands (run-time)"],
+   explanation="MRO resolution of __hash__/__eq__/__ne__ per class, field-dependence reachability, handler check of the "
+               "promotion TypeError.")
+
+_p('C16', ['A5', 'A8', 'A10', 'E6', 'K', 'C', 'L'],
+   decided=["operands are never modified by the non-in-place forms, including when both operands are the same object: no "
+            "self store effect in the public operators of the immutable classes; mutated temporaries own fresh stores; "
+            "BitStore-level binary operators and _copy build new stores",
+            "ValueError for negative shift counts and empty bitstrings, Error for ~ of an empty bitstring (guards present "
+            "and agreeing among siblings)",
+            "results are new objects of the operand's class with pos assigned"],
+   declined=["the per-bit boolean function, zero fill, algebraic laws, ValueError for unequal lengths (raised inside "
+             "bitarray): run-time / leaf behaviour"],
+   explanation="Effect summaries per public operator, provenance of mutated temporaries, sibling guard agreement, "
+               "result-class typing.")
+
 
 TECHNIQUE = {
+    'C01': 'result-class provenance typing per concrete class; sibling guard agreement; field-read reachability',
+    'C06': 'typestate of _pos: classification of all writes, rollback path walk, effect/override coverage, post-condition table',
+    'C07': 'sibling guard agreement; forward-or-validate dataflow of start/end; taint of raw bytealigned to search sinks',
+    'C08': 'field read-confinement census; representation invariant of BitStore.modified_length; ingress-copy rules',
+    'C10': 'exception-translation chain and guard dominance over exp-Golomb setters/getters/decoders/reader closures',
+    'C13': 'MRO resolution of __hash__/__eq__; field-dependence reachability; handler check',
+    'C16': 'effect summaries of operators; provenance of mutated temporaries; guard agreement; result-class typing',
     'C04': 'ownership/provenance analysis of BitStore installs with object-kind dataflow over the resolved call graph; effect summaries',
     'C11': 'exhaustive table validation against an exact format model (constant folding of luts.py literals); partial evaluation of format constructors',
     'C09': 'call-graph reachability from lru_cache functions to option reads; global-write census; switch-table comparison',
